@@ -299,6 +299,32 @@ def obs_events(chk):
             # ratio of the worst bin error to what the error model allows, in 1e-3 units (<= 1000 passes)
             ev['bin_ratio'] = obs.q(np.max(np.abs(np.asarray(p) - exp) / allowed), 1e-3) if ev['len_ok'] else 0
             batch.add(ev, {'N': N, 'nfft': nfft, 'window': name, 'form': form, 'rep': rep, 'seed': chk.seed, 'x': x})
+    # long records (past 4096 samples, the library's default NFFT; the thorough tier also past 8192 and 16384), NFFT prime /
+    # even / a power of two: the definition at a sample of bins (first, last, around the middle, random), same error model
+    for N, nfft in ([(4300, 4327), (4099, 8192)] if chk.tier == 'quick' else [(4300, 4327), (4099, 8192), (4300, 4300), (8200, 8209), (16400, 16411)]):
+        n = np.arange(N)
+        for cplx in (False, True):
+            x = rng.randn(N) + np.cos(2 * np.pi * 0.123 * n)
+            if cplx:
+                x = x + 1j * rng.randn(N)
+            name = ['hamming', 'rectangular'][int(cplx)]
+            w = window(N, name)
+            y = (np.asarray(x) * w).astype(np.clongdouble)
+            last = nfft - 1 if cplx else nfft // 2
+            kk = np.array(sorted(set([0, 1, 2, last, last - 1, last // 2, last // 2 + 1] + [int(v) for v in rng.randint(0, last + 1, 24)])))
+            X = np.array([np.sum(y * np.exp(-2j * np.pi * np.longdouble(k) * n.astype(np.longdouble) / nfft)) for k in kk])
+            P = (np.abs(X) ** 2 / N).astype(float)
+            delta = 16 * eps * max(1.0, np.log2(nfft)) * np.sqrt(nfft) * float(np.sqrt(np.sum(np.abs(y) ** 2)))
+            allowed = (2 * np.abs(X).astype(float) * delta + delta ** 2) / N + 1e-12 * P
+            want_len = nfft if cplx else nfft // 2 + 1
+            for form, f in (('function', lambda: speriodogram(x.copy(), NFFT=nfft, detrend=False, scale_by_freq=False, window=name)),
+                            ('class', lambda: np.array(Periodogram(x.copy(), window=name, NFFT=nfft, scale_by_freq=False, detrend=None).psd))):
+                ev = {'ev': 'bins', 'N': N, 'nfft': nfft, 'window': name, 'form': form, 'cplx': cplx}
+                ok, p = call_guard(f)
+                ev['raised'] = not ok
+                ev['len_ok'] = bool(ok and np.shape(p) == (want_len,))
+                ev['bin_ratio'] = obs.q(np.max(np.abs(np.asarray(p)[kk] - P) / allowed), 1e-3) if ev['len_ok'] else 0
+                batch.add(ev, {'N': N, 'nfft': nfft, 'window': name, 'form': form, 'cplx': cplx, 'seed': chk.seed})
     obs.validate(chk, batch, 'obs-large-N', lambda ev, cl: 'C01:OBS:%s:%s' % (ev['ev'], cl),
                  lambda ev, cl: 'N=%d NFFT=%d %s: clause "%s" fails: %s' % (ev['N'], ev['nfft'], ev.get('window', ''), cl, ev))
     chk.sample('obs-event', batch.events[0], 1)
@@ -309,6 +335,10 @@ def run(chk):
     obs_events(chk)
     from .. import session
     session.run_for(chk, 'C01')      # Session.tla: results do not depend on earlier calls
+    from .. import units
+    units.run_for(chk, 'C01')      # Units.tla: the unit the data are expressed in is not part of the data
+    from .. import carrier
+    carrier.run_for(chk, 'C01')      # Carrier.tla: a sample denotes its value whatever container carries it
 
 
 def replay_case(chk, sig, case):
